@@ -39,6 +39,15 @@ pub fn any_config() -> (Config, Bonuses) {
     (c, b)
 }
 
+/// base configuration `k` (concrete) with symbolic ignore_case / normalize, prefix preference off
+pub fn sym_config(k: u8) -> (Config, Bonuses) {
+    let (mut c, b) = base_config(k);
+    c.ignore_case = kani::any();
+    c.normalize = kani::any();
+    c.prefer_prefix = false;
+    (c, b)
+}
+
 /// configuration with prefix preference off (C03 is stated for that case)
 pub fn any_config_no_prefix() -> (Config, Bonuses) {
     let (mut c, b) = any_config();
@@ -312,4 +321,43 @@ pub fn prior_untouched(idx: &[u32], old: &[u32]) -> bool {
         k += 1;
     }
     true
+}
+
+/// start of the leftmost occurrence whose first character earns the highest bonus
+pub fn spec_best_occurrence<H: Char + PartialEq<N>, N: Char>(hay: &[H], needle: &[N], cfg: &Config, kind: Bonuses) -> Option<usize> {
+    let mut best: Option<(usize, u16)> = None;
+    let mut at = 0;
+    while at + needle.len() <= hay.len() {
+        if spec_occurs_at(hay, needle, at, cfg) {
+            let b = spec_bonus_at(hay, at, cfg, kind);
+            match best {
+                Some((_, bb)) if bb >= b => {}
+                _ => best = Some((at, b)),
+            }
+        }
+        at += 1;
+    }
+    best.map(|x| x.0)
+}
+
+pub fn first_match<H: Char + PartialEq<N>, N: Char>(hay: &[H], c: N, from: usize, cfg: &Config) -> Option<usize> {
+    let mut i = from;
+    while i < hay.len() {
+        if matches(hay[i], c, cfg) {
+            return Some(i);
+        }
+        i += 1;
+    }
+    None
+}
+
+pub fn last_match<H: Char + PartialEq<N>, N: Char>(hay: &[H], c: N, from: usize, cfg: &Config) -> Option<usize> {
+    let mut i = hay.len();
+    while i > from {
+        i -= 1;
+        if matches(hay[i], c, cfg) {
+            return Some(i);
+        }
+    }
+    None
 }
